@@ -13,6 +13,7 @@ import OcVerif.Driver.Sel
 import OcVerif.Driver.Stack
 import OcVerif.Driver.Trap
 import OcVerif.Driver.Sched
+import OcVerif.Driver.Pool
 /-!
 `ocmodel`: reads history lines `<comp> <id> : <body> => <implementation outputs>` on stdin,
 runs the Lean model on `<body>`, compares with the implementation's outputs and evaluates the
@@ -39,6 +40,7 @@ def dispatch (comp : String) : Option (String → String → Verdict) :=
   | "stack" => some Driver.Stack.drive
   | "trap" => some Driver.Trap.drive
   | "sched" => some Driver.Sched.drive
+  | "pool" => some Driver.Pool.drive
   | _ => none
 
 def handle (line : String) : String :=
